@@ -318,14 +318,14 @@ def missing_in_objs(t, found, text_fallback, lambda_vars=()):
 
 
 # --- running one backend --------------------------------------------------------------------
-def run_backend(backend, node, rel):
+def run_backend(backend, node, rel, root="Post"):
     """-> ("ok", result, trace) | ("exc", exception, trace)"""
     M = django_env.models()
     with contracts.tracing(want_parts=True) as tr:
         try:
             if backend == "django":
                 from odata_query.django.django_q import AstToDjangoQVisitor
-                model = M.Post if rel else M.T
+                model = getattr(M, root) if rel else M.T
                 v = AstToDjangoQVisitor(model)
                 q = v.visit(node)
                 qs = model.objects.all()
@@ -338,7 +338,7 @@ def run_backend(backend, node, rel):
             if backend == "sqlalchemy-orm":
                 import sqlalchemy as sa
                 from odata_query.sqlalchemy.orm import AstToSqlAlchemyOrmVisitor
-                model = sqla_env.Post if rel else sqla_env.T
+                model = getattr(sqla_env, root) if rel else sqla_env.T
                 v = AstToSqlAlchemyOrmVisitor(model)
                 clause = v.visit(node)
                 q = sa.select(model.id)
@@ -351,7 +351,7 @@ def run_backend(backend, node, rel):
             if backend == "sqlalchemy-core":
                 import sqlalchemy as sa
                 from odata_query.sqlalchemy.core import AstToSqlAlchemyCoreVisitor
-                table = (sqla_env.Post if rel else sqla_env.T).__table__
+                table = (getattr(sqla_env, root) if rel else sqla_env.T).__table__
                 clause = AstToSqlAlchemyCoreVisitor(table).visit(node)
                 q = sa.select(table.c.id).filter(clause)
                 with sqla_env.engine().connect() as con:
@@ -365,7 +365,7 @@ def run_backend(backend, node, rel):
             return ("exc", e, tr)
 
 
-def judge(ctx, kname, pos, t, backend, rel, unknown_field, check_leaves=True):
+def judge(ctx, kname, pos, t, backend, rel, unknown_field, check_leaves=True, root="Post"):
     text = to_text(t)
     o = drive.parse_ast(text)
     if o[0] != "ok":
@@ -380,7 +380,7 @@ def judge(ctx, kname, pos, t, backend, rel, unknown_field, check_leaves=True):
     ctx.cls("position:" + pos)
     case = {"kind": kname, "position": pos, "backend": backend, "filter": text}
     lamvars = {n[3] for n in T.walk(t) if n[0] == "lam" and n[3]}
-    out = run_backend(backend, node, rel)
+    out = run_backend(backend, node, rel, root)
     keys = findings.refusal_triggers(kname, pos, backend, t)
     if out[0] == "exc":
         e = out[1]
@@ -410,6 +410,8 @@ def judge(ctx, kname, pos, t, backend, rel, unknown_field, check_leaves=True):
             # (REGEXP with an invalid pattern, ...): environment, not judged
             ctx.cls("outcome:db-function-error")
             return
+        if ename == "OperationalError" and "ambiguous column" in str(e):
+            keys = keys + ["same-entity-via-two-paths@%s" % backend]
         if unknown_field and backend == "django" and ename == "FieldError":
             ctx.cls("outcome:django-field-error")   # Django's own unknown-field report
             return
@@ -436,6 +438,16 @@ def judge(ctx, kname, pos, t, backend, rel, unknown_field, check_leaves=True):
                  sig=["none", nones[0][1], backend])
         return
     ctx.cls("outcome:translated")
+    if backend == "sqlalchemy-orm" and rel:
+        # every to-one navigation step of the filter needs its own JOIN
+        want = sum(len(v) for v in findings._to_one_targets(t, root.lower()).values())
+        got = len(re.findall(r"\bJOIN\b", res[1].upper()))
+        ctx.count("join_counts_checked")
+        if got < want:
+            ctx.fail(dict(case, output=res[1]), "a navigation step of the filter has no JOIN in the "
+                     "translation (part missing)", expected=want, observed=got, keys=keys, cls=cell,
+                     sig=["join-missing", backend])
+            return
     if not check_leaves:
         return
     # leaves
@@ -502,6 +514,19 @@ def run(ctx):
             if idx % 701 == 0:
                 ctx.sample({"kind": kname, "position": pos, "backend": backend,
                             "filter": to_text(t)})
+    two_routes = [
+        ("two-routes-and", "author/name eq 'zq1w' and post/author/age gt 7001"),
+        ("two-routes-or", "post/author/name eq 'zq2w' or author/age lt 7002"),
+        ("two-routes-deep", "post/author/country/code eq 7003 and author/country/name eq 'zq3w'"),
+        ("one-route-deep", "post/author/country/name eq 'zq4w' and post/title ne 'zq5w'"),
+        ("same-route-twice", "author/name eq 'zq6w' or author/age gt 7006"),
+    ]
+    for kname, text in two_routes:
+        t = drive.parse_term(text)[1]
+        for backend in ("django", "sqlalchemy-orm"):
+            idx += 1
+            if ctx.mine(idx):
+                judge(ctx, kname, "comment-root", t, backend, True, False, root="Comment")
     ctx.count("exhaustive_complete")
     # thorough: random well-typed compositions (every function, nested) through all backends;
     # judged on fall-through / None parts / foreign exceptions only (no leaf matching)
